@@ -787,8 +787,8 @@ fn main() {
     } else {
         vec![true, false]
     };
-    let n_uniform = ctx.scale(if miri { 60 } else { 300 }, 10_000, 100_000);
-    let n_skew = ctx.scale(if miri { 60 } else { 300 }, 4_000, 30_000);
+    let n_uniform = ctx.scale(if miri { 60 } else { 300 }, 10_000, 20_000);
+    let n_skew = ctx.scale(if miri { 60 } else { 300 }, 4_000, 6_000);
 
     // 1. deterministic strata: every triple x mode x multiset kind, type combination rotating
     //    (thorough: every type combination)
@@ -805,12 +805,29 @@ fn main() {
                     Kind::Uniform => n_uniform,
                     _ => n_skew,
                 };
-                let type_range = if ctx.thorough() && !ctx.small { 0..NUM_TYPES } else { 0..1 };
+                // quick: one type combination per cell, rotating; thorough: two (all eight
+                // combinations meet every triple and every kind several times over)
+                let type_range = if ctx.thorough() && !ctx.small { 0..2 } else { 0..1 };
                 for t in type_range {
-                    let ty = ti + ki * 3 + online as usize * 5 + t;
+                    let ty = ti + ki * 3 + online as usize * 5 + t * 4 + t * (ti % 2);
                     do_case(&mut ctx, ty, cfg, kind, n, idx, Plan::Full);
                     idx += 1;
                 }
+            }
+        }
+    }
+
+    // 1b. 10^5 uniform pairs: the VBuilder-like configurations and one triple per
+    //     iterator branch in quick, every triple in thorough
+    if !ctx.small {
+        for (ti, &(bb, mb, sb)) in triples.iter().enumerate() {
+            let sel = ctx.thorough() || mb == 16 || [(0, 12, 12), (12, 12, 0), (9, 9, 9), (2, 9, 8), (8, 5, 1), (5, 12, 9)].contains(&(bb, mb, sb));
+            if !sel {
+                continue;
+            }
+            for &online in &modes {
+                do_case(&mut ctx, ti + online as usize, Cfg { online, bb, mb, sb }, Kind::Uniform, 100_000, idx, Plan::Full);
+                idx += 1;
             }
         }
     }
